@@ -1,1 +1,257 @@
+(* C05 — lemmas about applying reactions to material *)
 From V Require Import Common.NumFacts C05.Model.
+
+(* ---------- comparisons ---------- *)
+Lemma qltb_true a b : qltb a b = true <-> a < b.
+Proof.
+  unfold qltb. rewrite Bool.negb_true_iff. split; intros H.
+  - apply Qnot_le_lt. intros L. apply Qle_bool_iff in L. congruence.
+  - destruct (Qle_bool b a) eqn:E; auto. apply Qle_bool_iff in E. lra.
+Qed.
+Lemma qltb_false a b : qltb a b = false <-> b <= a.
+Proof.
+  unfold qltb. rewrite Bool.negb_false_iff. apply Qle_bool_iff.
+Qed.
+
+(* ---------- dot products ---------- *)
+Lemma vdot_nil_l b : vdot [] b = 0.
+Proof. reflexivity. Qed.
+Lemma vdot_nil_r a : vdot a [] = 0.
+Proof. destruct a; reflexivity. Qed.
+Lemma vdot_cons x a y b : vdot (x :: a) (y :: b) = x * y + vdot a b.
+Proof. reflexivity. Qed.
+
+Lemma vdot_vadd a m s : length m = length s -> vdot a (vadd m s) == vdot a m + vdot a s.
+Proof.
+  revert m s. induction a as [|x a IH]; intros m s L.
+  - rewrite !vdot_nil_l. lra.
+  - destruct m as [|y m], s as [|z s]; simpl in L; try discriminate.
+    + unfold vadd; simpl. rewrite !vdot_nil_r. lra.
+    + unfold vadd in *. simpl map2. rewrite !vdot_cons. rewrite IH by lia. lra.
+Qed.
+
+Lemma vdot_vscale a k s : vdot a (vscale k s) == k * vdot a s.
+Proof.
+  revert s. induction a as [|x a IH]; intros s.
+  - rewrite !vdot_nil_l. lra.
+  - destruct s as [|z s]; simpl vscale.
+    + rewrite !vdot_nil_r. lra.
+    + rewrite !vdot_cons. change (map (Qmult k) s) with (vscale k s). rewrite IH. lra.
+Qed.
+
+(* ---------- one reaction ---------- *)
+Definition normalised (r : rxn) : Prop := nthq (st r) (ridx r) == -1.
+Definition wf (n : nat) (r : rxn) : Prop := length (st r) = n.
+(* a linear functional (a row of the formula matrix, the molecular weights, ...) the reaction preserves *)
+Definition balanced (a : vec) (r : rxn) : Prop := vdot a (st r) == 0.
+
+Lemma nthq_react r m i : length (st r) = length m ->
+  nthq (react r m) i == nthq m i + nthq m (ridx r) * X r * nthq (st r) i.
+Proof.
+  intros L. unfold react. rewrite nthq_vadd, nthq_vscale; [lra|].
+  rewrite vscale_length. auto.
+Qed.
+
+Lemma react_length r m : length (st r) = length m -> length (react r m) = length m.
+Proof. intros L. unfold react. apply vadd_length. rewrite vscale_length; auto. Qed.
+
+Lemma react_dot a r m : length (st r) = length m ->
+  vdot a (react r m) == vdot a m + (nthq m (ridx r) * X r) * vdot a (st r).
+Proof.
+  intros L. unfold react. rewrite vdot_vadd, vdot_vscale; [lra|].
+  rewrite vscale_length; auto.
+Qed.
+
+Lemma react_conserves a r m : wf (length m) r -> balanced a r -> vdot a (react r m) == vdot a m.
+Proof. intros W B. unfold balanced in B. rewrite react_dot by exact W. rewrite B. lra. Qed.
+
+Lemma consumed_lemma r m : wf (length m) r -> normalised r ->
+  nthq (react r m) (ridx r) == nthq m (ridx r) - X r * nthq m (ridx r) /\
+  forall i, nthq (react r m) i == nthq m i + X r * nthq m (ridx r) * nthq (st r) i.
+Proof.
+  intros W Nr. unfold normalised in Nr. split.
+  - rewrite nthq_react by exact W. rewrite Nr. lra.
+  - intros i. rewrite nthq_react by exact W. lra.
+Qed.
+
+(* ---------- parallel: every extent is taken from the feed ---------- *)
+Definition extent_sum (feed : vec) (rs : list rxn) (i : nat) : Q :=
+  fold_right (fun r acc => nthq feed (ridx r) * X r * nthq (st r) i + acc) 0 rs.
+
+Lemma parallel_from_spec feed rs : forall m, Forall (wf (length m)) rs ->
+  length (react_parallel_from feed rs m) = length m /\
+  (forall i, nthq (react_parallel_from feed rs m) i == nthq m i + extent_sum feed rs i) /\
+  (forall a, Forall (balanced a) rs -> vdot a (react_parallel_from feed rs m) == vdot a m).
+Proof.
+  induction rs as [|r rs IH]; intros m W; simpl.
+  - repeat split; auto; intros; lra.
+  - inversion W as [|? ? Wr Wrs]; subst.
+    assert (L : length (vadd m (vscale (nthq feed (ridx r) * X r) (st r))) = length m).
+    { apply vadd_length. rewrite vscale_length. symmetry; exact Wr. }
+    destruct (IH (vadd m (vscale (nthq feed (ridx r) * X r) (st r)))) as (L' & V & D).
+    { rewrite L. exact Wrs. }
+    split; [congruence|]. split.
+    + intros i. rewrite V, nthq_vadd, nthq_vscale; [lra|]. rewrite vscale_length. symmetry; exact Wr.
+    + intros a B. inversion B as [|? ? Br Brs]; subst. rewrite (D a Brs).
+      rewrite vdot_vadd, vdot_vscale; [|rewrite vscale_length; symmetry; exact Wr].
+      unfold balanced in Br. rewrite Br. lra.
+Qed.
+
+Lemma parallel_def_lemma rs m : Forall (wf (length m)) rs ->
+  forall i, nthq (react_parallel rs m) i == nthq m i + extent_sum m rs i.
+Proof. intros W. apply (parallel_from_spec m rs m W). Qed.
+
+(* ---------- series: running composition ---------- *)
+Lemma series_spec rs : forall m, Forall (wf (length m)) rs ->
+  length (react_series rs m) = length m /\
+  (forall a, Forall (balanced a) rs -> vdot a (react_series rs m) == vdot a m).
+Proof.
+  induction rs as [|r rs IH]; intros m W; simpl.
+  - split; auto. intros; lra.
+  - inversion W as [|? ? Wr Wrs]; subst.
+    assert (L : length (react r m) = length m) by (apply react_length; exact Wr).
+    destruct (IH (react r m)) as (L' & D). { rewrite L. exact Wrs. }
+    unfold react_series in *. simpl. split; [congruence|].
+    intros a B. inversion B as [|? ? Br Brs]; subst. rewrite (D a Brs).
+    apply react_conserves; auto.
+Qed.
+
+Lemma series_def_lemma r rs m :
+  react_series [] m = m /\ react_series (r :: rs) m = react_series rs (react r m).
+Proof. split; reflexivity. Qed.
+
+(* ---------- sets and systems ---------- *)
+Definition rset_members (s : rset) : list rxn :=
+  match s with Single r => [r] | Parallel rs => rs | Series rs => rs end.
+Definition obj_members (o : robj) : list rxn :=
+  match o with
+  | Simple _ s => rset_members s
+  | System _ ps => concat (map (fun p => rset_members (snd p)) ps)
+  end.
+
+Lemma rset_spec s m : Forall (wf (length m)) (rset_members s) ->
+  length (react_rset s m) = length m /\
+  (forall a, Forall (balanced a) (rset_members s) -> vdot a (react_rset s m) == vdot a m).
+Proof.
+  destruct s as [r|rs|rs]; simpl; intros W.
+  - inversion W; subst. split; [apply react_length; auto|].
+    intros a B. inversion B; subst. apply react_conserves; auto.
+  - destruct (parallel_from_spec m rs m W) as (L & _ & D). split; auto.
+  - apply series_spec; auto.
+Qed.
+
+Lemma parts_spec b ps : forall m, Forall (wf (length m)) (concat (map (fun p => rset_members (snd p)) ps)) ->
+  length (fst (react_parts b ps m)) = length m /\
+  (forall a, Forall (balanced a) (concat (map (fun p => rset_members (snd p)) ps)) ->
+     vdot a (fst (react_parts b ps m)) == vdot a m).
+Proof.
+  induction ps as [|[pb s] ps IH]; intros m W; simpl.
+  - split; auto. intros; lra.
+  - simpl in W. apply Forall_app in W. destruct W as (Ws & Wps).
+    destruct (rset_spec s m Ws) as (L & D).
+    destruct (Bool.eqb pb b).
+    + destruct (IH (react_rset s m)) as (L' & D'). { rewrite L; auto. }
+      split; [congruence|]. intros a B. apply Forall_app in B. destruct B as (Bs & Bps).
+      rewrite (D' a Bps). apply D; auto.
+    + simpl. split; auto. intros; lra.
+Qed.
+
+(* whatever the object, and even when a ReactionSystem stops half way with a RuntimeError, the
+   buffer keeps every linear functional that all member stoichiometries annihilate *)
+Lemma react_obj_conserves o m a : Forall (wf (length m)) (obj_members o) ->
+  Forall (balanced a) (obj_members o) ->
+  length (fst (react_obj o m)) = length m /\ vdot a (fst (react_obj o m)) == vdot a m.
+Proof.
+  destruct o as [b s|b ps]; simpl; intros W B.
+  - destruct (rset_spec s m W) as (L & D). split; auto.
+  - destruct (parts_spec b ps m W) as (L & D). split; auto.
+Qed.
+
+Lemma system_def_lemma b s ps m :
+  react_parts b [] m = (m, None) /\
+  react_parts b ((b, s) :: ps) m = react_parts b ps (react_rset s m).
+Proof. split; [reflexivity|]. simpl. rewrite Bool.eqb_reflx. reflexivity. Qed.
+
+(* ---------- the feasibility step ---------- *)
+Definition nonneg (v : vec) : Prop := forall i, 0 <= nthq v i.
+
+Lemma nthq_cons_S x v i : nthq (x :: v) (S i) = nthq v i.
+Proof. reflexivity. Qed.
+
+Lemma nthq_clampv v i : nthq (clampv v) i = if qltb (nthq v i) 0 then 0 else nthq v i.
+Proof.
+  revert i. induction v as [|x v IH]; intros i.
+  - simpl. rewrite nthq_nil. reflexivity.
+  - destruct i; [reflexivity|]. simpl clampv. rewrite !nthq_cons_S. apply IH.
+Qed.
+
+Lemma clampv_length v : length (clampv v) = length v.
+Proof. apply map_length. Qed.
+
+Lemma clampv_nonneg v : nonneg (clampv v).
+Proof.
+  intros i. rewrite nthq_clampv. destruct (qltb (nthq v i) 0) eqn:E; [lra|].
+  apply qltb_false in E. exact E.
+Qed.
+
+Lemma clampv_id v : nonneg v -> clampv v = v.
+Proof.
+  induction v as [|x v IH]; intros Nn; [reflexivity|]. simpl.
+  assert (H0 := Nn O). unfold nthq in H0; simpl in H0.
+  apply qltb_false in H0. rewrite H0. f_equal. apply IH.
+  intros i. exact (Nn (S i)).
+Qed.
+
+Lemma neg_sum_nonpos v : neg_sum v <= 0.
+Proof.
+  unfold neg_sum. induction v as [|x v IH]; simpl; [lra|].
+  assert (Qmin x 0 <= 0) by apply Q.le_min_r. lra.
+Qed.
+
+Lemma neg_sum_cons x v : neg_sum (x :: v) = Qmin x 0 + neg_sum v.
+Proof. reflexivity. Qed.
+
+Lemma clamp_step x : (if qltb x 0 then 0 else x) == x - Qmin x 0.
+Proof.
+  destruct (qltb x 0) eqn:E.
+  - apply qltb_true in E. rewrite Q.min_l; lra.
+  - apply qltb_false in E. rewrite Q.min_r; lra.
+Qed.
+
+(* a total weighted by [a] moves by at most amax * (sum of the removed negatives) *)
+Lemma clampv_dot_bound amax : 0 <= amax -> forall a v, Forall (fun x => - amax <= x /\ x <= amax) a ->
+  - (amax * - neg_sum v) <= vdot a (clampv v) - vdot a v /\
+  vdot a (clampv v) - vdot a v <= amax * - neg_sum v.
+Proof.
+  intros Ha. induction a as [|x a IH]; intros v Ba.
+  - rewrite !vdot_nil_l. assert (H := neg_sum_nonpos v). split; nra.
+  - inversion Ba as [|? ? (Bl & Bu) Ba']; subst.
+    destruct v as [|y v].
+    + simpl clampv. rewrite !vdot_nil_r. unfold neg_sum; simpl. split; nra.
+    + simpl clampv. rewrite !vdot_cons, neg_sum_cons.
+      destruct (IH v Ba') as (I1 & I2).
+      assert (S := clamp_step y). assert (M : Qmin y 0 <= 0) by apply Q.le_min_r.
+      set (c := if qltb y 0 then 0 else y) in *.
+      set (d := vdot a (clampv v) - vdot a v) in *.
+      assert (E : x * c + vdot a (clampv v) - (x * y + vdot a v) == x * (c - y) + d) by (unfold d; ring).
+      rewrite E. assert (Cy : c - y == - Qmin y 0) by lra. rewrite Cy.
+      split; nra.
+Qed.
+
+Lemma clampv_sum v : qsum (clampv v) == qsum v - neg_sum v.
+Proof.
+  induction v as [|x v IH]; [unfold neg_sum; simpl; lra|].
+  simpl clampv. simpl qsum. rewrite neg_sum_cons, IH, clamp_step. lra.
+Qed.
+
+Lemma process_ok o v v' : process o v = (None, v') ->
+  snd (react_obj o v) = None /\ - eps <= neg_sum (fst (react_obj o v)) /\
+  v' = clampv (fst (react_obj o v)).
+Proof.
+  unfold process. destruct (react_obj o v) as [v1 [e|]]; simpl; [discriminate|].
+  destruct (qltb (neg_sum v1) (- eps)) eqn:E; [discriminate|].
+  intros H; inversion H; subst. apply qltb_false in E. auto.
+Qed.
+
+Lemma eps_value : eps <= 10000000000000001 # 10000000000000000000000000000 /\ 0 < eps.
+Proof. split; vm_compute; congruence. Qed.
